@@ -29,6 +29,7 @@ structure JCase where
   fails : List String := []
   chainLen : Nat := 0
   active : Bool := false
+  groups : List (String × String) := []               -- conflict groups seen so far: id ↦ final tasks
 
 def afterPrefix (s : String) (p : String) : Option String :=
   if s.startsWith p then some (s.drop p.length).toString else none
@@ -68,12 +69,25 @@ def judgeCase (c : JCase) : List String :=
     | some ops => if String.ofList (Json.printVersion ops) == t then none else some s!"wire not-canonical-request {shorten t}"
   c.fails ++ badDecode ++ reenc ++ conv ++ inv ++ snaps ++ sent
 
+def groupOf (hdr : String) : Option String :=
+  (hdr.splitOn " ").findSome? fun t => afterPrefix t "group="
+
+/-- order independence (C03): all cases of one group — the same concurrent changes synchronized
+    in different orders — must end in the same tasks -/
+def orderCheck (c : JCase) : List String × List (String × String) :=
+  match groupOf c.hdr, c.reps.head? with
+  | some g, some (_, _, _, tasks) =>
+    match c.groups.find? (·.1 == g) with
+    | some (_, t0) => if t0 == tasks then ([], c.groups) else ([s!"orderindep differs this-order={tasks} other-order={t0}"], c.groups)
+    | none => ([], (g, tasks) :: c.groups)
+  | _, _ => ([], c.groups)
+
 def flushCase (c : JCase) : List String :=
   if !c.active then []
   else
-    match judgeCase c with
+    match judgeCase c ++ (orderCheck c).1 with
     | [] => [s!"judge {c.hdr} :: ok"]
-    | fs => fs.map fun f => s!"judge {c.hdr} :: FAIL {f}"
+    | fs => fs.map fun f => s!"judge {c.hdr} :: FAIL {shorten f}"
 
 /-- extract the JSON payload of an `av <p> <json> -> …` line -/
 def avPayload (line : String) : Option String :=
@@ -87,7 +101,7 @@ def avPayload (line : String) : Option String :=
 
 def judgeLine (c : JCase) (line : String) : JCase × List String :=
   if line.startsWith "# case" then
-    ({ hdr := line, active := true }, flushCase c)
+    ({ hdr := line, active := true, groups := (orderCheck c).2 }, flushCase c)
   else if line.startsWith "rep " then
     match line.splitOn " " with
     | "rep" :: r :: b :: n :: rest =>
